@@ -1005,6 +1005,124 @@ theorem C10_roundtrip_segment_samples (io : LabelOpts) (eo : TagsOpts) (hi : Sin
   simp only [roundtripSegment, himp, bind, Except.bind]
   rw [C10_export_interval_identity eo cast r.samplerate _ _ _ label rfl hlab, hsn, hsm]
 
+/-- the time the importer reads from one end of a segment when there is no time expansion -/
+def endTime (sr : Rat) (sec : Option Rat) (sample : Option Int) : Option Rat :=
+  fileTime sec (sample.map ratOfInt) sr 1
+
+/-- a segment the importer accepts without time expansion: each end given in seconds or in samples
+    (any mixture), non-negative and ordered -/
+def SegValid (sr : Rat) (s : Segment) : Prop :=
+  ∃ a b, endTime sr s.onsetS s.onsetSample = some a ∧ endTime sr s.offsetS s.offsetSample = some b ∧
+    0 ≤ a ∧ a ≤ b
+
+/-- what the round trip makes of such a segment -/
+def rtImage (sr : Rat) (s : Segment) : Segment :=
+  ⟨s.label, endTime sr s.onsetS s.onsetSample, endTime sr s.offsetS s.offsetSample,
+   (endTime sr s.onsetS s.onsetSample).map (timeToSample sr),
+   (endTime sr s.offsetS s.offsetSample).map (timeToSample sr)⟩
+
+theorem timeToSample_div (sr : Rat) (hsr : sr ≠ 0) (n : Int) : timeToSample sr (ratOfInt n / sr) = n := by
+  have : ratOfInt n / sr * sr = (n : Rat) := by simp only [ratOfInt]; grind
+  rw [timeToSample, this]; exact pyInt_intCast n
+
+theorem roundtrip_segment_general_aux (io : LabelOpts) (eo : TagsOpts) (hi : SingleTagImport io)
+    (he : ValueOnlyExport eo) (hm : io.emptyLabels = [eo.emptyLabel]) (adjust cast : Bool) (r : Rec)
+    (hte : r.te = 1) (s : Segment) (hs : SegValid r.samplerate s) :
+    ∃ ann, importSegment io adjust r s = .ok ann ∧
+      exportSegment eo cast r.samplerate ann = .ok (rtImage r.samplerate s) := by
+  obtain ⟨a, b, ha, hb, h0, hab⟩ := hs
+  obtain ⟨tags, htags, hlab⟩ := C10_roundtrip_label io eo hi he hm s.label
+  have hseg : segTimes s.onsetS s.offsetS (s.onsetSample.map ratOfInt) (s.offsetSample.map ratOfInt)
+      r.samplerate r.te adjust = some (a, b) := by
+    unfold endTime at ha hb
+    rw [hte]; simp [segTimes, ha, hb, adjTime]
+  refine ⟨⟨some (.timeInterval a b), tags⟩, ?_, ?_⟩
+  · rw [C10_import_segment_geometry]
+    exact ⟨a, b, hseg, h0, hab, rfl, htags⟩
+  · rw [C10_export_interval_identity eo cast r.samplerate _ a b s.label rfl hlab]
+    simp [rtImage, ha, hb]
+
+/-- **round trip, segments, general form** (`te = 1`): each end may be given in seconds or in
+    samples; label, onset and offset are reproduced -/
+theorem C10_roundtrip_segment_general (io : LabelOpts) (eo : TagsOpts) (hi : SingleTagImport io)
+    (he : ValueOnlyExport eo) (hm : io.emptyLabels = [eo.emptyLabel]) (adjust cast : Bool) (r : Rec)
+    (hte : r.te = 1) (s : Segment) (hs : SegValid r.samplerate s) :
+    roundtripSegment io eo adjust cast r s = .ok (rtImage r.samplerate s) := by
+  obtain ⟨ann, h1, h2⟩ := roundtrip_segment_general_aux io eo hi he hm adjust cast r hte s hs
+  simp [roundtripSegment, h1, h2, bind, Except.bind]
+
+/-- the image satisfies the monitor: seconds that were given come back with
+    `floor(seconds · samplerate)`, ends given in samples get their sample index back -/
+theorem rtSegmentOk_image (sr : Rat) (hsr : sr ≠ 0) (s : Segment) (hs : SegValid sr s) :
+    rtSegmentOk sr s (rtImage sr s) = true := by
+  obtain ⟨a, b, ha, hb, _, _⟩ := hs
+  have key : ∀ (sec : Option Rat) (smp : Option Int) (t : Rat), endTime sr sec smp = some t →
+      rtEndOk sr sec smp (endTime sr sec smp) ((endTime sr sec smp).map (timeToSample sr)) = true := by
+    intro sec smp t h
+    cases sec with
+    | some x => simp [rtEndOk, endTime, fileTime]
+    | none =>
+      cases smp with
+      | none => simp [endTime, fileTime] at h
+      | some n =>
+        have hd : ratOfInt n / (sr / 1) = ratOfInt n / sr := by grind
+        simp [rtEndOk, endTime, fileTime, hd, timeToSample_div sr hsr n]
+  simp only [rtSegmentOk, rtImage, decide_true, Bool.true_and, Bool.and_eq_true]
+  exact ⟨key _ _ a ha, key _ _ b hb⟩
+
+theorem rtSeqOk_image (sr : Rat) (hsr : sr ≠ 0) (segs : List Segment) (hs : ∀ s ∈ segs, SegValid sr s) :
+    rtSeqOk sr segs (segs.map (rtImage sr)) = true := by
+  induction segs with
+  | nil => rfl
+  | cons s ss ih =>
+    simp only [List.map_cons, rtSeqOk, Bool.and_eq_true]
+    exact ⟨rtSegmentOk_image sr hsr s (hs s (by simp)), ih (fun x hx => hs x (by simp [hx]))⟩
+
+/-- **round trip, sequences and sequence annotations, general form** (`te = 1`, non-zero rate) -/
+theorem C10_roundtrip_sequence_general (io : LabelOpts) (eo : TagsOpts) (hi : SingleTagImport io)
+    (he : ValueOnlyExport eo) (hm : io.emptyLabels = [eo.emptyLabel]) (adjust cast ignore raiseTime : Bool) (r : Rec)
+    (hte : r.te = 1) (segs : List Segment) (hs : ∀ s ∈ segs, SegValid r.samplerate s) :
+    roundtripSequence io eo adjust cast ignore r segs = .ok (segs.map (rtImage r.samplerate)) ∧
+    roundtripAnnotation io eo .seq adjust ignore cast raiseTime r ⟨some r.path, [], [segs]⟩ =
+      .ok ⟨some r.path, [], [segs.map (rtImage r.samplerate)]⟩ := by
+  obtain ⟨anns, h1, h2⟩ := mapM_collect_roundtrip (importSegment io adjust r)
+    (exportSegment eo cast r.samplerate) (rtImage r.samplerate) ignore segs
+    (fun s h => roundtrip_segment_general_aux io eo hi he hm adjust cast r hte s (hs s h))
+  have h1' : importSequence io adjust r segs = .ok anns := h1
+  constructor
+  · simp [roundtripSequence, exportSequence, h1', h2, bind, Except.bind]
+  · simp [roundtripAnnotation, importAnnotation, importSeqs, exportAnnotation, exportSequence, h1', h2, bind,
+      Except.bind, pure, Except.pure]
+
+/-- the monitor evaluated by the harness on the implementation's own round trips is implied,
+    for every segment / sequence / sequence annotation in the domain -/
+theorem C10_roundtrip_holds_general (io : LabelOpts) (eo : TagsOpts) (hi : SingleTagImport io)
+    (he : ValueOnlyExport eo) (hm : io.emptyLabels = [eo.emptyLabel]) (adjust cast ignore raiseTime : Bool) (r : Rec)
+    (hte : r.te = 1) (hsr : r.samplerate ≠ 0) :
+    (∀ s y, SegValid r.samplerate s → roundtripSegment io eo adjust cast r s = .ok y →
+        rtSegmentOk r.samplerate s y = true) ∧
+    (∀ segs ys, (∀ s ∈ segs, SegValid r.samplerate s) →
+        roundtripSequence io eo adjust cast ignore r segs = .ok ys → rtSeqOk r.samplerate segs ys = true) ∧
+    (∀ segs y, (∀ s ∈ segs, SegValid r.samplerate s) →
+        roundtripAnnotation io eo .seq adjust ignore cast raiseTime r ⟨some r.path, [], [segs]⟩ = .ok y →
+        rtAnnOk r.samplerate ⟨some r.path, [], [segs]⟩ y = true) := by
+  refine ⟨?_, ?_, ?_⟩
+  · intro s y hs hy
+    rw [C10_roundtrip_segment_general io eo hi he hm adjust cast r hte s hs] at hy
+    cases hy; exact rtSegmentOk_image _ hsr s hs
+  · intro segs ys hs hy
+    rw [(C10_roundtrip_sequence_general io eo hi he hm adjust cast ignore raiseTime r hte segs hs).1] at hy
+    cases hy; exact rtSeqOk_image _ hsr segs hs
+  · intro segs y hs hy
+    rw [(C10_roundtrip_sequence_general io eo hi he hm adjust cast ignore raiseTime r hte segs hs).2] at hy
+    cases hy
+    simp [rtAnnOk, rtSeqsOk, rtSeqOk_image _ hsr segs hs]
+
+example : SegValid 8 ⟨"a", some (1/2), none, none, some 10⟩ :=
+  ⟨1/2, 5/4, by decide +kernel, by decide +kernel, by decide +kernel, by decide +kernel⟩
+example : roundtripSegment {} { kw := { valueOnly := some true } } true true ⟨8, 1, "rec.wav"⟩
+    ⟨"a", some (1/2), none, none, some 10⟩ = .ok ⟨"a", some (1/2), some (5/4), some 4, some 10⟩ := by decide +kernel
+
 /-- a crowsetta box the round trip reproduces: crowsetta's own invariants, the upper frequency
     within `MAX_FREQUENCY` and the Nyquist frequency -/
 structure BoxInDomain (r : Rec) (b : BBox) : Prop where
